@@ -82,9 +82,13 @@ impl SstCase {
         for kv in keys.iter() {
             let total: u64 = kv.versions.iter().map(|v| v.0.max(1) as u64).sum();
             let mut seq = seq_base + total;
-            for v in kv.versions.iter() {
+            let n = kv.versions.len();
+            for (vi, v) in kv.versions.iter().enumerate() {
                 seq -= v.0.max(1) as u64;
-                out.push(VerifEntry { user_key: kv.key.clone(), seq: seq + 1, kind: kind_of(v.1), ts: v.2 as u64, value: value_of(v.3, v.4, self.opts.block as usize) });
+                // a gap of 0 on the oldest version of a key gives it sequence number 0 (the smallest internal key
+                // of a user key: the target that inclusive upper bounds and snapshot-0 lookups seek to; seed C13d-1)
+                let s = if vi + 1 == n && v.0 == 0 { 0 } else { seq + 1 };
+                out.push(VerifEntry { user_key: kv.key.clone(), seq: s, kind: kind_of(v.1), ts: v.2 as u64, value: value_of(v.3, v.4, self.opts.block as usize) });
             }
             seq_base += total + 1;
         }
@@ -384,7 +388,7 @@ fn user_key() -> BoxedStrategy<Vec<u8>> {
 pub fn sst_strategy(max_keys: usize) -> BoxedStrategy<SstCase> {
     let opts = (prop_oneof![Just(32u32), Just(64), Just(128), Just(256), Just(1024)], prop_oneof![Just(1u8), Just(2), Just(3), Just(7), Just(16)], prop_oneof![Just(32u32), Just(64), Just(128), Just(512)], any::<bool>(), any::<bool>())
         .prop_map(|(block, restart, index_part, snappy, bloom)| SstOpts { block, restart, index_part, snappy, bloom });
-    let kv = (user_key(), vec((1u8..4, 0u8..4, 0u16..50, 0u8..7, any::<u32>()), 1..12)).prop_map(|(key, versions)| KeyVersions { key, versions });
+    let kv = (user_key(), vec((0u8..4, 0u8..4, 0u16..50, 0u8..7, any::<u32>()), 1..12)).prop_map(|(key, versions)| KeyVersions { key, versions });
     let q = prop_oneof![
         4 => (any::<u16>(), -2i8..3).prop_map(|(e, dseq)| SstQ::Seek { e, dseq }),
         2 => (user_key(), 0u16..400).prop_map(|(key, seq)| SstQ::SeekUser { key, seq }),
@@ -461,7 +465,7 @@ pub fn c13(max_keys: usize) -> PropDef<SstCase> {
         id: "C13",
         engine: "format",
         level: "exploration",
-        rule: "case = table options (block 32..1024, restart interval 1..16, index partition 32..512, Snappy on/off, bloom on/off) + a strictly ordered entry set (1..N user keys from an adversarial alphabet - shared long prefixes, prefix chains, 0xff tails, 60-300 byte keys - each with 1..11 versions with descending sequence numbers, kinds Set/Delete/SoftDelete/Replace, values empty / small / block+-few / 3*block) written through TableWriter and reopened. Checked: complete forward and backward iteration; Table::get for every sampled stored (key, seq) at snapshots seq, seq+-1, 0, max and for absent neighbour keys; a generated cursor program (seek to stored keys +-seq, to arbitrary keys, first/last/next/prev with reversals); bounded iterators for all bound kinds both ways; is_before_range / is_after_range / overlaps_with_range / is_key_in_key_range may never exclude a range that holds a stored entry. Non-trivial: the table has >=3 data blocks and >=2 index partitions and some user key's versions span more than two blocks. Distinct = hash of the serialised case.".into(),
+        rule: "case = table options (block 32..1024, restart interval 1..16, index partition 32..512, Snappy on/off, bloom on/off) + a strictly ordered entry set (1..N user keys from an adversarial alphabet - shared long prefixes, prefix chains, 0xff tails, 60-300 byte keys - each with 1..11 versions with descending sequence numbers (the oldest version of about a quarter of the keys has sequence number 0), kinds Set/Delete/SoftDelete/Replace, values empty / small / block+-few / 3*block) written through TableWriter and reopened. Checked: complete forward and backward iteration; Table::get for every sampled stored (key, seq) at snapshots seq, seq+-1, 0, max and for absent neighbour keys; a generated cursor program (seek to stored keys +-seq, to arbitrary keys, first/last/next/prev with reversals); bounded iterators for all bound kinds both ways; is_before_range / is_after_range / overlaps_with_range / is_key_in_key_range may never exclude a range that holds a stored entry. Non-trivial: the table has >=3 data blocks and >=2 index partitions and some user key's versions span more than two blocks. Distinct = hash of the serialised case.".into(),
         assumptions: vec![
             "sorted Vec reference; entries are handed to the writer in strictly increasing internal-key order (the writer's documented precondition)".into(),
             "through the guarded facade src/verif.rs (sst_write / VerifTable), which only delegates to TableWriter / Table".into(),
